@@ -241,3 +241,44 @@ func dedup(in [][2]string) [][2]string {
 	}
 	return out
 }
+
+func init() { moreFacts = append(moreFacts, factsUpgradeWorkers) }
+
+// factsUpgradeWorkers: the goroutine workers of the v1.7.5 upgrade handler append to shared slices; do they hold a
+// mutex while doing so?
+func factsUpgradeWorkers() {
+	locked := false
+	if fd := funcDecl("app/upgrades/v1.7.5/handler.go", "", "TurnOffLiquidVesting"); fd != nil {
+		ast.Inspect(fd.Body, func(n ast.Node) bool {
+			fl, ok := n.(*ast.FuncLit)
+			if !ok {
+				return true
+			}
+			// the worker: a function literal ranging over the channel
+			ast.Inspect(fl.Body, func(m ast.Node) bool {
+				rs, ok := m.(*ast.RangeStmt)
+				if !ok {
+					return true
+				}
+				var order []string
+				for _, st := range rs.Body.List {
+					s := src(st)
+					switch {
+					case strings.Contains(s, ".Lock()"):
+						order = append(order, "lock")
+					case strings.Contains(s, ".Unlock()"):
+						order = append(order, "unlock")
+					case strings.Contains(s, "tryFoundFixScheduleForVestingAccount(") || strings.Contains(s, "processAccount("):
+						order = append(order, "append")
+					}
+				}
+				if strings.Join(order, ",") == "lock,append,append,unlock" {
+					locked = true
+				}
+				return true
+			})
+			return true
+		})
+	}
+	emitBool("upgrade175WorkersLockAppends", locked, "the goroutine workers of the v1.7.5 upgrade handler hold a mutex around the two calls that append to the shared slices")
+}
